@@ -914,7 +914,9 @@ __ywd_diff(dt_ywd_t d1, dt_ywd_t d2)
 		tgtw--;
 		tgtd += GREG_DAYS_P_WEEK;
 	}
-	if (tgtw < 0) {
+	while (tgtw < 0) {
+		/* one year may not be enough, from W53 to W01 two years on
+		 * there's hardly more than a year's worth of weeks */
 		tgty--;
 		tgtw += __get_isowk(d1.y + tgty);
 	}
